@@ -148,6 +148,8 @@ type cluster struct {
 	nResizes int
 	nTicks   int
 	failFold bool
+	killFold bool // the next coalesce: the sync agent's sfold child dies from a signal
+	agents   map[int]http.Handler // node -> router of jiva's REAL sync agent (used for coalesce requests)
 	failXfer bool // the next snapshot-file transfer of the sync agent dies half way (the sender exits non-zero)
 	pendingCleaner int
 	cleanerTick map[int]chan time.Time
